@@ -56,8 +56,10 @@ func muxProbe(filters []string, topic string) (accepted []bool, called []int) {
 	return
 }
 
-var c14Levels = []string{"", "a", "b", "ab", "+", "#", "a+", "+a", "#b", "a#", "++", "é", "日本", "sensor", "x y", "0", "$", "$x", "$SYS", "a$"}
-var c14TopicLevels = []string{"", "a", "b", "ab", "é", "日本", "sensor", "x y", "0", "a+"}
+var c14Levels = []string{"", "a", "b", "ab", "+", "#", "a+", "+a", "#b", "a#", "++", "é", "日本", "sensor", "x y", "0", "$", "$x", "$SYS", "a$",
+	// white space is an ordinary character (round 8): whole levels, prefixes/suffixes, next to wildcards
+	" ", "\t", "\n", "a ", " a", "b\n", "+ ", " +", " #", "# ", "\u00a0", "a\u00a0", "\u2028", "\u2028b"}
+var c14TopicLevels = []string{"", "a", "b", "ab", "é", "日本", "sensor", "x y", "0", "a+", " ", "a ", " a", "\t", "\n", "\u00a0", "b\u2028"}
 
 // levels beginning with (or containing) '$': used at NON-first positions of topics only, the
 // property excludes topic names whose first character is '$'
@@ -433,6 +435,7 @@ func runC14(cfg *runCfg) error {
 	}
 	sigFamily("sig", "/+#ab", "/ab", "sig_mismatches")
 	sigFamily("sigd", "/+#a$", "/a$", "sigd_mismatches")
+	sigFamily("sigw", "/+#a ", "/a ", "sigw_mismatches") // round 8: the space character
 	m.Distribution["sig_filters_accepted"] = accepted
 	m.Distribution["sig_pairs_matched"] = matched
 
@@ -614,19 +617,23 @@ func runC14(cfg *runCfg) error {
 	deepDistinct := c14DeepFamily(cfg, r, cf, m)
 	nestDistinct := c14NestFamilies(cfg, r, cf, m)
 	concDistinct := c14ConcFamily(cfg, r, cf, m)
+	// ---- round 8: handlers that register and dispatch while being served (c14c.go) ----
+	concDistinct += c14RegFamilies(cfg, r, cf, m)
 
 	m.DistinctNontrivial = accepted + len(seen) + len(lateSeen) + xLate + deepDistinct + nestDistinct + concDistinct
 	m.Rule = fmt.Sprintf("exhaustive (sig): every filter over {/,+,#,a,b} up to length %d against every topic over {/,a,b} up to length %d; "+
-		"exhaustive (sigd): every filter over {/,+,#,a,$} up to length %d against every topic over {/,a,$} up to length %d not starting with '$'; all through ServeMux.Handle/Serve; "+
+		"exhaustive (sigd): every filter over {/,+,#,a,$} up to length %d against every topic over {/,a,$} up to length %d not starting with '$'; "+
+		"exhaustive (sigw): the same lengths over {/,+,#,a,SPACE} x {/,a,SPACE}; all through ServeMux.Handle/Serve; "+
 		"random: level-structured filters (wildcards, UTF-8, '$' levels, mutated bytes) with topics derived from them ('$'-prefixed levels at non-first positions); "+
 		"mux: 1-6 registrations then one Serve; ops: random histories of 3-20 Handle/Serve operations on 1-3 ServeMux values over small topic/filter pools "+
 		"(repeated topics, Handle after Serve, rejected filters in between); opsx: every history up to length %d over 7 operations on 2 ServeMux values. "+
 		"deep: topics of 1-40 levels (emphasis on 15-18, 31-33, powers of two) with 4-7 filters derived from them (literal, one level replaced by '+', prefix + '#', the topic's tail as a short filter, near misses, invalid) on one ServeMux; "+
 		"nest/nestx: random and enumerated histories whose handlers dispatch another message through the same or another ServeMux before returning (nesting depth <= 2); "+
-		"conc: 2-4 goroutines serving different topics on one ServeMux, every call parked inside its handlers until all calls overlap. "+
+		"conc: 2-4 goroutines serving different topics on one ServeMux, every call parked inside its handlers until all calls overlap; "+
+		"reg/regx: random and enumerated histories whose handlers call Handle (own or other ServeMux) and Serve while being served, every operation behind a 5 s watchdog. "+
 		"distinct_nontrivial = accepted enumerated filters (each with a full topic sweep) + distinct random (filter,topic) pairs "+
 		"+ distinct random histories and enumerated histories in which a Serve invoked a handler registered after an earlier Serve of the same topic "+
-		"+ distinct deep cases + re-entrant histories in which the outer call invokes a handler after a nested dispatch + overlapping cases with >= 2 calls inside handlers at once", fl, tl, fl, tl, xl)
+		"+ distinct deep cases + re-entrant histories in which the outer call invokes a handler after a nested dispatch + overlapping cases with >= 2 calls inside handlers at once + histories/serves during which a handler was registered", fl, tl, fl, tl, xl)
 	m.Exhaustive = true
 	if err := cf.write(cfg.outDir); err != nil {
 		return err
